@@ -1,5 +1,5 @@
 (* C12 - the password operation is a reversible mask on the secret. *)
-From PS Require Import Base PackDefs ApiDefs SpecDefs SpecApi PackTheorems ApiLemmas RefineProofs ApiTheorems.
+From PS Require Import Base PackDefs ApiDefs SpecDefs SpecApi PackTheorems ApiLemmas RefineProofs ApiTheorems HeldProofs.
 From PS.Gen Require Import Consts Langs.
 Local Open Scope N_scope.
 
@@ -59,3 +59,11 @@ Proof.
   exists (repeat x61 544). intros E. apply (f_equal (@length _)) in E. revert E. vm_compute. discriminate.
 Qed.
 Print Assumptions C12_refuted_for_long_passwords.
+
+(* what polyseed_crypt does to a held seed does not depend on the feature set enabled when it is called: same KDF
+   call, same new contents of the block *)
+Theorem C12_crypt_independent_of_enabled_set : forall sgn st r h pw,
+  snd (step sgn langs (with_reserved r st) (OpCrypt h pw)) = snd (step sgn langs st (OpCrypt h pw)) /\
+  st_heap (fst (fst (step sgn langs (with_reserved r st) (OpCrypt h pw)))) = st_heap (fst (fst (step sgn langs st (OpCrypt h pw)))).
+Proof. intros sgn st r h pw. rewrite (held_independent sgn langs st r (OpCrypt h pw) eq_refl). split; reflexivity. Qed.
+Print Assumptions C12_crypt_independent_of_enabled_set.
